@@ -653,7 +653,7 @@ class Machine:
         self.objects = []
         self.allow_write = None     # optional predicate(obj) -> bool  (C20 store monitor)
         self.global_access = []     # accesses to mutable globals (C20 / C07 re-entrancy)
-        self.merge = True           # if-convert side-effect free diamonds on symbolic conditions
+        self.merge = not os.environ.get('VERIF_NOMERGE')           # if-convert side-effect free diamonds on symbolic conditions
         self.merges = 0
         self.trace_calls = []
 
@@ -987,101 +987,282 @@ class Machine:
                     raise pysym.Inconclusive('step budget exhausted')
             prev, cur = cur, nxt
 
-    _SIMPLE = {'load', 'gep', 'bin', 'icmp', 'fcmp', 'fbin', 'select', 'cast', 'fneg'}
+    _SIMPLE = {'load', 'gep', 'bin', 'icmp', 'fcmp', 'fbin', 'select', 'cast', 'fneg', 'call', 'store'}
+    _PURE = {'sqrt', 'exp', 'llvm.fabs.f64', 'fabs', 'pow'}
 
-    def _arm_info(self, f, blk):
-        """(join label) if blk is a side-effect free straight-line block ending in an unconditional branch"""
-        key = (f.name, blk)
-        hit = self.mod.__dict__.setdefault('_arm_cache', {}).get(key, 0)
-        if hit != 0:
-            return hit
-        phis, body = f.code[blk]
-        res = None
-        if not phis and body and body[-1][0] == 'br' and all(d[0] in self._SIMPLE for d in body[:-1]) and len(body) <= 12:
-            res = body[-1][1]
-        self.mod._arm_cache[key] = res
-        return res
-
-    def _spec_arm(self, f, blk, env):
-        """speculatively execute a simple arm on an overlay environment; returns the overlay or None"""
-        ov = dict(env)
-        V = self._val
-        try:
-            for d in f.code[blk][1][:-1]:
-                op = d[0]
-                if op == 'load':
-                    p = V(d[2], ov)
-                    if not isinstance(p, Ptr) or not isinstance(p.off, int):
-                        return None
-                    ov[d[1]] = self.load(p, d[3], d[4])
-                elif op == 'gep':
-                    p = V(d[2], ov)
-                    if not isinstance(p, Ptr):
-                        return None
-                    off = p.off + d[3]
-                    for io, scale in d[4]:
-                        off = off + V(io, ov) * scale
-                    ov[d[1]] = Ptr(p.obj, off)
-                elif op == 'bin':
-                    ov[d[1]] = self._bin(d, V(d[5], ov), V(d[6], ov))
-                elif op == 'icmp':
-                    ov[d[1]] = self._icmp(d[2], d[3], V(d[4], ov), V(d[5], ov))
-                elif op == 'fcmp':
-                    ov[d[1]] = fcmp(d[2], V(d[3], ov), V(d[4], ov))
-                elif op == 'fbin':
-                    a, b = V(d[3], ov), V(d[4], ov)
-                    for x in (a, b):
-                        if isinstance(x, float) and (math.isinf(x) or x != x) and d[2] in ('fmul', 'fdiv'):
-                            return None
-                    if d[2] == 'fdiv':
-                        return None
-                    ov[d[1]] = farith(d[2], a, b)
-                elif op == 'select':
-                    c = V(d[2], ov)
-                    a, b = V(d[3], ov), V(d[4], ov)
-                    if isinstance(c, z3.ExprRef) and not (d[5] == 'double' and is_mergeable(a) and is_mergeable(b)):
-                        return None
-                    ov[d[1]] = self._select(c, a, b, d[5])
-                elif op == 'cast':
-                    ov[d[1]] = self._cast(d[2], V(d[3], ov), d[4], d[5])
-                elif op == 'fneg':
-                    ov[d[1]] = -V(d[2], ov)
-        except (Violation, Unsupported, pysym.Inconclusive):
-            return None
-        return ov
-
-    def _try_merge(self, f, cur, tb, fb, cond, env):
-        """if-conversion of a side-effect free diamond / triangle on a symbolic condition; returns the join label"""
-        jt = self._arm_info(f, tb)
-        jf = self._arm_info(f, fb)
-        if jt is not None and jt == jf:
-            join, arms = jt, ((tb, tb), (fb, fb))
-        elif jt is not None and jt == fb:
-            join, arms = fb, ((tb, tb), (None, cur))
-        elif jf is not None and jf == tb:
-            join, arms = tb, ((None, cur), (fb, fb))
-        else:
-            return None
-        phis = f.code[join][0]
-        envs = []
-        for blk, pred in arms:
-            if blk is None:
-                envs.append((env, pred))
+    def _ipdom(self, f):
+        """immediate post-dominators of the blocks of f (computed once per function)"""
+        pd = getattr(f, '_ipdom', None)
+        if pd is not None:
+            return pd
+        succ = {}
+        for b in f.order:
+            body = f.code[b][1]
+            t = body[-1] if body else ('unreachable',)
+            if t[0] == 'br':
+                succ[b] = [t[1]]
+            elif t[0] == 'cbr':
+                succ[b] = [t[2], t[3]]
+            elif t[0] == 'switch':
+                succ[b] = [t[2]] + [l for _, l in t[3]]
             else:
-                ov = self._spec_arm(f, blk, env)
-                if ov is None:
+                succ[b] = []
+        EXIT = '<exit>'
+        nodes = list(f.order) + [EXIT]
+        full = set(nodes)
+        pdom = {b: set(full) for b in f.order}
+        pdom[EXIT] = {EXIT}
+        for b in f.order:
+            if not succ[b]:
+                succ[b] = [EXIT]
+        changed = True
+        while changed:
+            changed = False
+            for b in reversed(f.order):
+                new = None
+                for s_ in succ[b]:
+                    new = set(pdom[s_]) if new is None else (new & pdom[s_])
+                new = (new or set()) | {b}
+                if new != pdom[b]:
+                    pdom[b] = new
+                    changed = True
+        ip = {}
+        for b in f.order:
+            cands = pdom[b] - {b}
+            best = None
+            for c in cands:
+                # the immediate post-dominator is the candidate post-dominated by no other candidate ... i.e. closest
+                if all((c == d) or (d in pdom[c]) for d in cands):
+                    best = c
+                    break
+            ip[b] = None if best in (None, EXIT) else best
+        f._ipdom = ip
+        return ip
+
+    def _spec_region(self, f, start, pred, join, env, budget, depth):
+        """speculatively execute the side-effect free region from block `start` (entered from `pred`) up to `join`.
+        returns (overlay env, predecessor label at the join) or None"""
+        ov = env
+        cur, prev = start, pred
+        V = self._val
+        visited = set()
+        pos = getattr(f, '_pos', None)
+        if pos is None:
+            pos = f._pos = {b: i for i, b in enumerate(f.order)}
+        if pos.get(join, -1) <= pos.get(pred, 1 << 30):
+            return None         # the join must lie ahead of the branch (no loops inside a merged region)
+        while cur != join:
+            if cur in visited or cur is None:
+                return None
+            if prev is not None and pos[cur] <= pos[prev]:
+                return None     # back edge: values of loop-header phis would escape the region
+            visited.add(cur)
+            phis, body = f.code[cur]
+            if phis:
+                if ov is env:
+                    ov = dict(env)
+                vals = []
+                for d in phis:
+                    if prev not in d[2]:
+                        return None
+                    vals.append((d[1], V(d[2][prev], ov)))
+                for k, v in vals:
+                    ov[k] = v
+            for d in body:
+                budget[0] -= 1
+                if budget[0] < 0:
                     return None
-                envs.append((ov, pred))
+                op = d[0]
+                if op == 'br':
+                    prev, cur = cur, d[1]
+                    break
+                if op == 'cbr':
+                    c = V(d[1], ov)
+                    if isinstance(c, (bool, int)):
+                        prev, cur = cur, (d[2] if c else d[3])
+                        break
+                    if not isinstance(c, z3.ExprRef) or depth <= 0:
+                        return None
+                    if ov is env:
+                        ov = dict(env)
+                    saved = ov.get('__stores__')
+                    if saved:
+                        return None
+                    ov['__stores__'] = None
+                    j = self._merge_at(f, cur, d[2], d[3], c, ov, budget, depth - 1)
+                    ov['__stores__'] = saved
+                    if j is None:
+                        return None
+                    # phis of j were assigned by _merge_at: continue *after* them
+                    prev, cur = None, j
+                    if cur == join:
+                        return None      # nested join coincides with the outer one: let the caller fork
+                    # execute body of j without re-evaluating phis
+                    res = self._spec_body_after_merge(f, j, ov, budget, depth)
+                    if res is None:
+                        return None
+                    prev, cur = res
+                    break
+                if op not in self._SIMPLE:
+                    return None
+                if ov is env:
+                    ov = dict(env)
+                if not self._spec_instr(d, ov):
+                    return None
+            else:
+                return None
+        if ov is env:
+            ov = dict(env)
+        return ov, prev
+
+    def _spec_body_after_merge(self, f, blk, ov, budget, depth):
+        """run the non-phi part of block blk speculatively; returns (prev, next) or None"""
+        V = self._val
+        for d in f.code[blk][1]:
+            budget[0] -= 1
+            if budget[0] < 0:
+                return None
+            op = d[0]
+            if op == 'br':
+                return blk, d[1]
+            if op == 'cbr':
+                c = V(d[1], ov)
+                if isinstance(c, (bool, int)):
+                    return blk, (d[2] if c else d[3])
+                if not isinstance(c, z3.ExprRef) or depth <= 0:
+                    return None
+                saved = ov.get('__stores__')
+                if saved:
+                    return None
+                ov['__stores__'] = None
+                j = self._merge_at(f, blk, d[2], d[3], c, ov, budget, depth - 1)
+                ov['__stores__'] = saved
+                if j is None:
+                    return None
+                return self._spec_body_after_merge(f, j, ov, budget, depth)
+            if op not in self._SIMPLE:
+                return None
+            if not self._spec_instr(d, ov):
+                return None
+        return None
+
+    def _spec_instr(self, d, ov):
+        V = self._val
+        op = d[0]
+        try:
+            if op == 'load':
+                p = V(d[2], ov)
+                if not isinstance(p, Ptr) or not isinstance(p.off, int):
+                    return False
+                for (o2, off2, _v) in (ov.get('__stores__') or ()):
+                    if o2 is p.obj and off2 == p.off:
+                        return False
+                ov[d[1]] = self.load(p, d[3], d[4])
+            elif op == 'gep':
+                p = V(d[2], ov)
+                if not isinstance(p, Ptr):
+                    return False
+                off = p.off + d[3]
+                for io, scale in d[4]:
+                    off = off + V(io, ov) * scale
+                ov[d[1]] = Ptr(p.obj, off)
+            elif op == 'bin':
+                ov[d[1]] = self._bin(d, V(d[5], ov), V(d[6], ov))
+            elif op == 'icmp':
+                ov[d[1]] = self._icmp(d[2], d[3], V(d[4], ov), V(d[5], ov))
+            elif op == 'fcmp':
+                ov[d[1]] = fcmp(d[2], V(d[3], ov), V(d[4], ov))
+            elif op == 'fbin':
+                a, b = V(d[3], ov), V(d[4], ov)
+                if d[2] == 'fdiv':
+                    return False
+                for x in (a, b):
+                    if isinstance(x, float) and (math.isinf(x) or x != x) and d[2] == 'fmul':
+                        return False
+                ov[d[1]] = farith(d[2], a, b)
+            elif op == 'select':
+                c = V(d[2], ov)
+                a, b = V(d[3], ov), V(d[4], ov)
+                if isinstance(c, z3.ExprRef) and not (d[5] == 'double' and is_mergeable(a) and is_mergeable(b)):
+                    return False
+                ov[d[1]] = self._select(c, a, b, d[5])
+            elif op == 'cast':
+                ov[d[1]] = self._cast(d[2], V(d[3], ov), d[4], d[5])
+            elif op == 'fneg':
+                ov[d[1]] = -V(d[2], ov)
+            elif op == 'call':
+                if d[2] not in self._PURE or d[2] in self.stubs:
+                    return False
+                args = [V(a, ov) for a in d[3]]
+                if any(isinstance(a, float) and (math.isinf(a) or a != a) for a in args):
+                    return False
+                r = self.call_external(d[2], args)
+                if d[1]:
+                    ov[d[1]] = r
+            elif op == 'store':
+                st = ov.get('__stores__')
+                if st is None:
+                    return False        # stores are only speculated in the outermost arms
+                p = V(d[2], ov)
+                v = V(d[1], ov)
+                if not isinstance(p, Ptr) or not isinstance(p.off, int) or d[3] != 'double' or not is_mergeable(v):
+                    return False
+                o = p.obj
+                self._check_access(p, d[4], 'store')
+                if not o.writable or (self.allow_write is not None and not self.allow_write(o)) or o.kind == 'global':
+                    return False
+                old = o.cells.get(p.off, None)
+                for (o2, off2, _v) in st:
+                    if o2 is o and off2 == p.off:
+                        return False    # two stores to one cell in one arm
+                if old is None or not is_mergeable(old):
+                    return False
+                ov['__stores__'] = st + [(o, p.off, v)]
+            else:
+                return False
+        except (Violation, Unsupported, pysym.Inconclusive):
+            return False
+        return True
+
+    def _merge_at(self, f, cur, tb, fb, cond, env, budget, depth):
+        """if-convert the region between the symbolic branch at the end of `cur` and its immediate post-dominator.
+        On success the phis of the join are assigned in env and the join label is returned."""
+        join = self._ipdom(f).get(cur)
+        if join is None:
+            return None
+        pos = getattr(f, '_pos', None)
+        if pos is None:
+            pos = f._pos = {b: i for i, b in enumerate(f.order)}
+        if pos[join] <= pos[cur]:
+            return None
+        arms = []
+        top_stores = env.get('__stores__') is not None
+        for tgt in (tb, fb):
+            if tgt == join:
+                arms.append((env, cur))
+            else:
+                e2 = env
+                if top_stores:
+                    e2 = dict(env)
+                    e2['__stores__'] = []
+                r = self._spec_region(f, tgt, cur, join, e2, budget, depth)
+                if r is None:
+                    return None
+                arms.append(r)
+        phis = f.code[join][0]
         vals = []
         for d in phis:
             inc = d[2]
-            if envs[0][1] not in inc or envs[1][1] not in inc:
+            if arms[0][1] not in inc or arms[1][1] not in inc:
                 return None
-            a = self._val(inc[envs[0][1]], envs[0][0])
-            b = self._val(inc[envs[1][1]], envs[1][0])
+            a = self._val(inc[arms[0][1]], arms[0][0])
+            b = self._val(inc[arms[1][1]], arms[1][0])
             ty = d[3]
             if ty == 'double':
                 if not (is_mergeable(a) and is_mergeable(b)):
+                    if isinstance(a, float) and isinstance(b, float) and (a == b or (a != a and b != b)):
+                        vals.append((d[1], a))
+                        continue
                     return None
                 vals.append((d[1], z3.If(cond, tor(a), tor(b))))
             elif ty.startswith('i') and not ty.endswith('*'):
@@ -1095,10 +1276,39 @@ class Machine:
                     return None      # integer results steer indexing: keep them concrete by forking
             else:
                 return None
+        if top_stores:
+            st_t = arms[0][0].get('__stores__') or []
+            st_f = arms[1][0].get('__stores__') or []
+            cells = {}
+            for which, lst in ((0, st_t), (1, st_f)):
+                for (o, off, v) in lst:
+                    cells.setdefault((id(o), off), [o, off, None, None])[2 + which] = v
+            writes = []
+            for o, off, vt, vf in cells.values():
+                old = o.cells.get(off)
+                vt = old if vt is None else vt
+                vf = old if vf is None else vf
+                if not (is_mergeable(vt) and is_mergeable(vf)):
+                    return None
+                writes.append((o, off, z3.If(cond, tor(vt), tor(vf))))
+            env['__pending_writes__'] = writes
         for k, v in vals:
             env[k] = v
         self.merges += 1
         return join
+
+    def _try_merge(self, f, cur, tb, fb, cond, env):
+        ov = dict(env)
+        ov['__stores__'] = []
+        j = self._merge_at(f, cur, tb, fb, cond, ov, [80], 3)
+        if j is None:
+            return None
+        for (o, off, v) in ov.get('__pending_writes__', ()):
+            o.cells[off] = v
+            o.writes.add(off)
+        for d in f.code[j][0]:
+            env[d[1]] = ov[d[1]]
+        return j
 
     def _val(self, o, env):
         if type(o) is str:
